@@ -29,8 +29,14 @@ enum Kind {
     /// a document whose value is the empty string (empty block scalar, empty quoted scalar):
     /// a value, not a null document - it is not skipped
     EmptyString,
+    /// a scalar that spells a null but is a string by its tag (`!!str null`, `!!str ~`): a
+    /// value, not a null document - it is not skipped
+    TaggedStrNull,
+    /// a bare enum variant name whose variant carries an (optional) payload: reading the payload
+    /// must not look past the end of the document
+    BarePayloadVariant,
 }
-const KINDS: [Kind; 16] = [
+const KINDS: [Kind; 18] = [
     Kind::Mapping,
     Kind::Sequence,
     Kind::Scalar,
@@ -47,6 +53,8 @@ const KINDS: [Kind; 16] = [
     Kind::NestedValid,
     Kind::EnumName,
     Kind::EmptyString,
+    Kind::TaggedStrNull,
+    Kind::BarePayloadVariant,
 ];
 
 #[derive(Clone, Debug, Serialize, Deserialize, PartialEq, Eq, Hash)]
@@ -64,12 +72,15 @@ enum Target {
     IntMap,
     /// enum Cmd { Start, Stop }: sequences / mappings are type errors raised on a peeked event
     Cmd,
+    /// String: everything but a scalar is a type error; `!!str null` is the string "null"
+    Str,
 }
 
 #[derive(Debug, Deserialize, PartialEq)]
 enum Cmd {
     Start,
     Stop,
+    Wait(Option<i64>),
 }
 
 #[derive(Clone, Debug, Serialize, Deserialize)]
@@ -101,6 +112,8 @@ impl Part {
             // (a top-level block scalar is closed by `...`: without it the parser takes the next
             // `---` line for content)
             Kind::EmptyString => ["''\n", "\"\"\n", "|\n...\n"][v % 3],
+            Kind::TaggedStrNull => ["!!str null\n", "!!str ~\n"][v % 2],
+            Kind::BarePayloadVariant => "Wait\n",
         }
     }
     fn has_syntax_error(&self) -> bool {
@@ -322,7 +335,7 @@ impl Property for C11 {
     const ID: &'static str = "C11";
     type Case = Case;
     fn rule() -> String {
-        "cases = sequences over 16 document kinds (mapping, sequence, scalar, empty, explicit null, comment-only, defines an anchor, aliases an anchor of an earlier document, type error early, type error late inside nesting, syntax error, unterminated flow, type error followed by a syntax error, another valid mapping, a bare enum variant name), 2-3 concrete texts per kind, with/without `...` end markers and trailing comments, LF/CRLF; all sequences of length <= 3 (thorough: <= 4) and random ones up to length 8; targets: untyped tree, BTreeMap<String,i64> and a unit-variant enum (for which several kinds are type errors, some raised on a peeked event). Oracle: a model built from parsing each part alone with from_str: batch = Err if a part fails else the list of the non-empty parts; iterator = Ok / Err per part, continuing after a type-level error and ending after a part that contains a syntax error, never more than len+2 items, equal to batch when nothing fails; single-document entry points reject a stream whose later part has content. Non-trivial: >= 2 parts one of which is an error or anchor-related kind.".into()
+        "cases = sequences over 18 document kinds (mapping, sequence, scalar, empty, explicit null, comment-only, defines an anchor, aliases an anchor of an earlier document, type error early, type error late inside nesting, syntax error, unterminated flow, type error followed by a syntax error, another valid mapping, a bare enum variant name - of a unit variant and of a variant with an optional payload -, an empty string, a null-like scalar tagged `!!str`), 2-3 concrete texts per kind, with/without `...` end markers and trailing comments, LF/CRLF; all sequences of length <= 3 (thorough: <= 4) and random ones up to length 8; targets: untyped tree, BTreeMap<String,i64>, String and an enum (for which several kinds are type errors, some raised on a peeked event). Oracle: a model built from parsing each part alone with from_str: batch = Err if a part fails else the list of the non-empty parts; iterator = Ok / Err per part, continuing after a type-level error and ending after a part that contains a syntax error, never more than len+2 items, equal to batch when nothing fails; single-document entry points reject a stream whose later part has content. Non-trivial: >= 2 parts one of which is an error or anchor-related kind.".into()
     }
     fn assumptions() -> Vec<String> {
         vec![
@@ -331,7 +344,13 @@ impl Property for C11 {
         ]
     }
     fn check(c: &Case) -> Outcome {
+        // (`!!str null` is a string for a String target; what the other targets make of it -
+        // the untyped one reads a null - is reader leniency outside this property)
+        if c.target != Target::Str && c.parts.iter().any(|p| p.kind == Kind::TaggedStrNull) {
+            return Outcome::Discard("tagged-null-string-for-a-non-string-target");
+        }
         match c.target {
+            Target::Str => check_typed::<String>(c),
             Target::Untyped => check_typed::<U>(c),
             Target::IntMap => check_typed::<BTreeMap<String, i64>>(c),
             Target::Cmd => check_typed::<Cmd>(c),
@@ -364,7 +383,7 @@ impl Property for C11 {
     /// trailing comment)
     fn fuzz_decode(data: &[u8]) -> Option<(&'static str, Case, bool)> {
         let mut b = engine::Bytes::new(data);
-        let target = b.pick(&[Target::Untyped, Target::IntMap, Target::Cmd]);
+        let target = b.pick(&[Target::Untyped, Target::IntMap, Target::Cmd, Target::Str]);
         let crlf = b.bool();
         let n = 1 + b.below(8);
         let parts: Vec<Part> = (0..n)
@@ -393,7 +412,7 @@ impl Property for C11 {
                     let salt = code * 7 + j * 3;
                     parts.push(Part { kind: k, variant: (salt % 3) as u8, end_marker: salt % 4 == 1, trailing_comment: salt % 5 == 2 });
                 }
-                for target in [Target::Untyped, Target::IntMap, Target::Cmd] {
+                for target in [Target::Untyped, Target::IntMap, Target::Cmd, Target::Str] {
                     idx += 1;
                     total += 1;
                     if ctx.mine(idx) {
@@ -409,13 +428,13 @@ impl Property for C11 {
                 }
             }
         }
-        ctx.subspace(&format!("all sequences of length <= {maxlen} over 16 document kinds x 3 targets"), total, true);
+        ctx.subspace(&format!("all sequences of length <= {maxlen} over 18 document kinds x 4 targets"), total, true);
 
         let part = (prop::sample::select(KINDS.to_vec()), 0u8..3, any::<bool>(), any::<bool>()).prop_map(|(kind, variant, e, t)| Part { kind, variant, end_marker: e, trailing_comment: t });
         // bias towards valid kinds so that long streams survive
         let good_part = (prop::sample::select(vec![Kind::Mapping, Kind::NestedValid, Kind::Empty, Kind::ExplicitNull, Kind::CommentOnly, Kind::DefinesAnchor, Kind::TypeErrorEarly, Kind::TypeErrorLate, Kind::Sequence, Kind::Scalar, Kind::EnumName, Kind::EnumName]), 0u8..3, any::<bool>(), any::<bool>())
             .prop_map(|(kind, variant, e, t)| Part { kind, variant, end_marker: e, trailing_comment: t });
-        let strat = (prop::collection::vec(prop_oneof![3 => good_part, 1 => part], 1..9), prop::sample::select(vec![Target::Untyped, Target::IntMap, Target::Cmd]), any::<bool>())
+        let strat = (prop::collection::vec(prop_oneof![3 => good_part, 1 => part], 1..9), prop::sample::select(vec![Target::Untyped, Target::IntMap, Target::Cmd, Target::Str]), any::<bool>())
             .prop_map(|(parts, target, crlf)| Case { parts, target, crlf });
         ctx.run_strategy("random-long", 1, ctx.tier.pick(30_000, 400_000), &strat, nontrivial);
     }
